@@ -2,7 +2,8 @@
    a case is an operation name and a list of generic arguments; the answer is a generic
    output value.  The OCaml driver (eval/driver.ml) only parses / prints these types. *)
 From Coq Require Import String.
-From ArrRs Require Import Base Arr Index Axis Broadcast Lift Split Reduce Sort Join Reorder Edit Bits Linalg.
+From ArrRs Require Import Base Arr Index Axis Broadcast Lift Split Reduce Sort Join Reorder Edit Bits Linalg Create.
+From Coq Require QArith.
 Open Scope string_scope.
 Open Scope list_scope.
 
@@ -428,9 +429,59 @@ Definition table_linalg : list (string * (list arg -> out)) :=
   ; ("dot", zz2 (dot 0%Z Z.add Z.mul false)); ("dot_pinned", zz2 (dot 0%Z Z.add Z.mul true))
   ].
 
+(* ---- C16: structured constructors ---- *)
+Definition oq (l : list QArith_base.Q) : out :=
+  OList [OL (map QArith_base.Qnum l); OL (map (fun q => Zpos (QArith_base.Qden q)) l)].
+Definition zpos_of (z : Z) : positive := match z with Zpos p => p | _ => 1%positive end.
+
+Definition table_create : list (string * (list arg -> out)) :=
+  [ ("full", fun args => match args with [AL sh; AZ v] => orarr (full (nats sh) v) | _ => OBad end)
+  ; ("zeros", fun args => match args with [AL sh] => orarr (full (nats sh) 0%Z) | _ => OBad end)
+  ; ("ones", fun args => match args with [AL sh] => orarr (full (nats sh) 1%Z) | _ => OBad end)
+  ; ("full_like", fun args => match args with [AA s e; AZ v] => orarr (full_like (mka s e) v) | _ => OBad end)
+  ; ("zeros_like", fun args => match args with [AA s e] => orarr (full_like (mka s e) 0%Z) | _ => OBad end)
+  ; ("ones_like", fun args => match args with [AA s e] => orarr (full_like (mka s e) 1%Z) | _ => OBad end)
+  ; ("eye", fun args => match args with
+       | [AZ n; m; k] => match optn m, optn k with
+           | Some m, Some k => orarr (eye 0%Z 1%Z (Z.to_nat n) (match m with Some m => m | None => Z.to_nat n end)
+                                          (match k with Some k => k | None => 0 end))
+           | _, _ => OBad end
+       | _ => OBad end)
+  ; ("identity", fun args => match args with [AZ n] => orarr (identity 0%Z 1%Z (Z.to_nat n)) | _ => OBad end)
+  ; ("tri", fun args => match args with
+       | [AZ n; m; k] => match optn m, optz k with
+           | Some m, Some k => orarr (tri 0%Z 1%Z (Z.to_nat n) (match m with Some m => m | None => Z.to_nat n end)
+                                          (match k with Some k => k | None => 0%Z end))
+           | _, _ => OBad end
+       | _ => OBad end)
+  ; ("tril", fun args => match args with
+       | [AA s e; k] => match optz k with Some k => orarr (tril 0%Z (mka s e) (match k with Some k => k | None => 0%Z end)) | None => OBad end
+       | _ => OBad end)
+  ; ("triu", fun args => match args with
+       | [AA s e; k] => match optz k with Some k => orarr (triu 0%Z (mka s e) (match k with Some k => k | None => 0%Z end)) | None => OBad end
+       | _ => OBad end)
+  ; ("diag", fun args => match args with
+       | [AA s e; k] => match optz k with Some k => orarr (diag 0%Z (mka s e) (match k with Some k => k | None => 0%Z end)) | None => OBad end
+       | _ => OBad end)
+  ; ("diagflat", fun args => match args with
+       | [AA s e; k] => match optz k with Some k => orarr (diagflat 0%Z (mka s e) (match k with Some k => k | None => 0%Z end)) | None => OBad end
+       | _ => OBad end)
+  ; ("vander", fun args => match args with
+       | [AA s e; n; AZ inc] => match optn n with Some n => orarr (vander (mka s e) n (inc =? 1)%Z) | None => OBad end
+       | _ => OBad end)
+  ; ("arange", fun args => match args with
+       | [AZ a; AZ b; st] => match optz st with
+           | Some st => orarr (arange a b (match st with Some s => s | None => 1%Z end)) | None => OBad end
+       | _ => OBad end)
+  ; ("linspace", fun args => match args with
+       | [AZ sn; AZ sd; AZ en; AZ ed; AZ num; AZ ep] =>
+         oq (linspace_q (QArith_base.Qmake sn (zpos_of sd)) (QArith_base.Qmake en (zpos_of ed)) (Z.to_nat num) (ep =? 1)%Z)
+       | _ => OBad end)
+  ].
+
 Definition table : list (string * (list arg -> out)) :=
   table_index ++ table_axis ++ table_broadcast ++ table_ew2 ++ table_ew1 ++ table_ops ++ table_reduce ++ table_sort
-  ++ table_join ++ table_reorder ++ table_edit ++ table_bits ++ table_linalg.
+  ++ table_join ++ table_reorder ++ table_edit ++ table_bits ++ table_linalg ++ table_create.
 
 Fixpoint lookup (name : string) (t : list (string * (list arg -> out))) : option (list arg -> out) :=
   match t with
